@@ -66,7 +66,8 @@ int __CPROVER_file_local_ciffile_c_write_text(void *context, UChar *text, int32_
     return stub_rc;
 }
 void harness(void) {
-    cif_value_tp v; UChar *s = (UChar *) malloc((N + 1) * sizeof(UChar)); int i, rc, all11 = 1; struct wstats w;
+    cif_value_tp v;
+    V_ASSERT(PREFIX_LENGTH_GEN == WRITER_PREFIX_LENGTH, "the contract uses the prefix length of the current source"); UChar *s = (UChar *) malloc((N + 1) * sizeof(UChar)); int i, rc, all11 = 1; struct wstats w;
     V_MALLOC_OK(s);
     for (i = 0; i < N; i++) {
         if (i >= KLEN && i < KLEN + FILL) s[i] = 'a'; else { s[i] = vnd_u16(); V_ASSUME(s[i] != 0 && s[i] != 0x0d);
